@@ -216,7 +216,8 @@ Theorem research_paths_retrievable : forall q root l,
     get_path root p = Ok r.
 Proof.
   intros q root l Hw Hr p r Hin Hp Hc. unfold research in Hr.
-  rewrite machine_is_recursion in Hr. unfold srb_root in Hr.
+  pose proof (machine_is_recursion None true (collect_defs root) root) as HM. cbn [lift] in HM.
+  rewrite HM in Hr. clear HM. unfold srb_root in Hr.
   destruct root as [n|id k items|id k|k|id k]; try (cbn in Hr; discriminate).
   destruct (srb impl_blank None (collect_defs (ONode id k items)) true [] KNone (ONode id k items) [] [])
     as [[v m] lg] eqn:E.
